@@ -681,6 +681,11 @@ func (mvcc *MVCCLevelDB) pessimisticLockMutation(batch *leveldb.Batch, mutation 
 			}
 			return dec.lock.lockErr(mutation.Key)
 		}
+		if dec.lock.op != kvrpcpb.Op_PessimisticLock {
+			// The key is already prewritten by this transaction: refuse (TiKV: LockTypeNotMatch)
+			// instead of replacing the prewrite lock and losing its value.
+			return ErrAbort("lock type not match: the key is already prewritten by this transaction")
+		}
 	}
 
 	// For pessimisticLockMutation, check the corresponding rollback record, there may be rollbackLock
